@@ -822,6 +822,14 @@ def check_clean(case):
         if not on["password"]:
             labels.add("exempt:password")
             continue
+        if any(part[0] == "pw" and len(part) > 2 and part[2] == secret
+               and part[1].find(secret) < len(part[1]) - len(secret)
+               for ln in case["lines"] for part in ln["parts"]):
+            # the secret's text also occurs inside its own key / separator ("password2=d2=": 'd2=' is the tail of
+            # the key): finding it in the output says nothing about the secret (false alarm found by the thorough
+            # tier at VERIF_SEED=1, corrected; regression case secret-text-inside-its-own-key)
+            labels.add("ambiguous:secret-text-inside-its-own-key")
+            continue
         if set(secret) == set("="):
             # "password====": the masker's separator is '=+' - where the separator ends and a secret made of '='
             # only begins is not defined (observed: "password===********", the last '=' is taken for the secret)
@@ -1250,6 +1258,8 @@ def _reg(lines, fqdn="web01.corp.acme.org", entry="list", **kw):
 
 
 REGRESSIONS = [
+    # false alarm corrected (thorough tier, VERIF_SEED=1): the secret's text is also the tail of its own key
+    Reg("secret-text-inside-its-own-key", "clean", {"allowlist": None, "entry": "list", "final_newline": True, "fqdn": "web.corp.acme.org", "keywords": [], "lines": [{"parts": [["fill", "link "], ["pw", "password2=d2=", "d2="], ["fill", " "]], "tag": 0, "tagpos": "start"}], "name_source": None, "no_obfuscate": [], "no_redact": False, "obf": {"hostname": True, "ipv6": False, "mac": True, "obfuscate": True}, "patterns": None, "width": False}),
     Reg("ip-prefix-pair-with-port", "clean", _reg([
         _ln(1, [["ip", "1.2.3.4"], ["fill", ":80 "], ["ip", "1.2.3.45"], ["fill", ","], ["ip", "11.2.3.4"],
                 ["fill", " via "], ["ip", "1.2.3.4"]], "end"),
